@@ -731,7 +731,7 @@ pub fn run(cx: &mut Ctx) {
             }
         }
     });
-    let n = cx.a.n(20_000, 800_000);
+    let n = cx.a.n(60_000, 1_000_000);
     let quick = cx.a.quick();
     for _ in 0..n {
         cx.case("history", |c| {
